@@ -10,9 +10,18 @@
 (* (a, b, c), so the root is the integer c and z is a rational number:       *)
 (*      z = (d/20) / (c/100) = 5 d / c.                                       *)
 (* a = 0 is the deterministic load (pf_simple_load).                         *)
+(* All log-distances of a state are divided by its zoom (>= Step(c)).         *)
 (***************************************************************************)
 EXTENDS Integers, Rat
 Z(d, c) == Norm(5 * d, c)                       \* probit of the failure probability
-Triples == {<<0, 4, 4>>, <<0, 10, 10>>, <<3, 4, 5>>, <<4, 3, 5>>, <<6, 8, 10>>, <<5, 12, 13>>, <<12, 5, 13>>, <<8, 15, 17>>, <<20, 21, 29>>, <<24, 7, 25>>, <<7, 24, 25>>}
-IsTriple(t) == t[1] * t[1] + t[2] * t[2] = t[3] * t[3]
+Triples == {<<0, 4, 4>>, <<0, 10, 10>>, <<3, 4, 5>>, <<4, 3, 5>>, <<6, 8, 10>>, <<5, 12, 13>>, <<12, 5, 13>>, <<8, 15, 17>>, <<20, 21, 29>>, <<24, 7, 25>>, <<7, 24, 25>>,
+            (* slender triples: one scatter 4.5, 20 and 200 times the other (whether the quadrature resolves the narrow distribution) *)
+            <<40, 9, 41>>, <<9, 40, 41>>, <<840, 41, 841>>, <<41, 840, 841>>, <<80400, 401, 80401>>, <<401, 80400, 80401>>}
+Slender(t) == t[3] > 40
+(* a^2 + b^2 = c^2, written without the squares of the long leg and of c (TLC's integers are 32 bit) *)
+IsTriple(t) == LET s == IF t[1] < t[2] THEN t[1] ELSE t[2]
+                   l == IF t[1] < t[2] THEN t[2] ELSE t[1]
+               IN s * s = (t[3] - l) * (t[3] + l)
+(* the medians of a state lie k steps apart; a step is 1/20 decade times Step(c), so that the probit moves by about k/5 for every triple *)
+Step(c) == IF c < 50 THEN 1 ELSE c \div 25
 =============================================================================
